@@ -114,7 +114,16 @@ func equalValue(x, y reflect.Value) bool {
 		iter := x.MapRange()
 		for iter.Next() {
 			vx := iter.Value()
-			vy := y.MapIndex(iter.Key())
+			k := iter.Key()
+			if kt := y.Type().Key(); k.Type() != kt {
+				// The key types differ. String-kind keys denote the same JSON
+				// property names whatever their Go type.
+				if k.Kind() != reflect.String || kt.Kind() != reflect.String {
+					return false
+				}
+				k = k.Convert(kt)
+			}
+			vy := y.MapIndex(k)
 			if !vy.IsValid() || !equalValue(vx, vy) {
 				return false
 			}
